@@ -34,8 +34,9 @@ def _write_if_changed(path, text):
     return True
 
 
-def setup():
+def setup(repo=runner.DEFAULT_REPO):
     """generate the metatypes JSON, class stubs and reflection; precompile the runtime object"""
+    sc.load_real(os.path.join(repo, "contrib/metatypes"))
     os.makedirs(GEN, exist_ok=True)
     ch = False
     ch |= _write_if_changed(os.path.join(GEN, "sim_metatypes.json"), sc.metatypes_json())
